@@ -12,7 +12,7 @@ CHECKS = {
  "C02": dict(
     technique="runtime monitoring: real generators vs brute-force graph algorithms; exact (projected) model sets by truth table, model counts vs witness counts",
     text="Exploration: Tseitin (every charge vector incl. short/long/non-boolean), k-colouring, even colouring, dominating set (both encodings, projection on the set variables), tiling, isomorphism/automorphism, (induced) subgraph, clique (unary and binary, +-symmetry breaking), Ramsey witness, on every simple graph with <= 4 vertices and seeded 5/6-vertex graphs, CNF and OPB, cnfgen and networkx inputs; model set compared object by object with brute-force witnesses (so counts such as 2^(|E|-|V|+c) and #isomorphisms are implied and the Tseitin closed form is asserted).",
-    note="Trusts vmon/tt.py and the brute-force algorithms in C02.py.  One known finding (RamseyWitnessFormula ignores s when k != s) is listed in known_findings.json.",
+    note="Trusts vmon/tt.py and the brute-force algorithms in C02.py.",
     design="5/C02"),
  "C03": dict(
     technique="runtime monitoring: truth-table unsatisfiability / colouring enumeration under the cap plus clause-set comparison with independent named-atom axiom generators at every size",
